@@ -35,26 +35,31 @@ macro_rules! value_harness {
 //# props: C27
 //# kind: complete (every txid; index 0 - the five c27_inscription_id_value_b* harnesses together cover every u32 index)
 //# fns: inscriptions::inscription_id::InscriptionId::value, inscriptions::inscription_id::InscriptionId::from_value
+//# timeout: 900
 value_harness!(c27_inscription_id_value_b0, 0, 0, 0);
 
 //# props: C27
 //# kind: complete (every txid; every index 1..=0xff)
 //# fns: inscriptions::inscription_id::InscriptionId::value, inscriptions::inscription_id::InscriptionId::from_value
+//# timeout: 900
 value_harness!(c27_inscription_id_value_b1, 1, 0xff, 1);
 
 //# props: C27
 //# kind: complete (every txid; every index 0x100..=0xffff)
 //# fns: inscriptions::inscription_id::InscriptionId::value, inscriptions::inscription_id::InscriptionId::from_value
+//# timeout: 900
 value_harness!(c27_inscription_id_value_b2, 0x100, 0xffff, 2);
 
 //# props: C27
 //# kind: complete (every txid; every index 0x10000..=0xffffff)
 //# fns: inscriptions::inscription_id::InscriptionId::value, inscriptions::inscription_id::InscriptionId::from_value
+//# timeout: 900
 value_harness!(c27_inscription_id_value_b3, 0x1_0000, 0xff_ffff, 3);
 
 //# props: C27
 //# kind: complete (every txid; every index 0x1000000..=u32::MAX)
 //# fns: inscriptions::inscription_id::InscriptionId::value, inscriptions::inscription_id::InscriptionId::from_value
+//# timeout: 900
 value_harness!(c27_inscription_id_value_b4, 0x100_0000, u32::MAX, 4);
 
 /// from_value() on arbitrary bytes: accepts exactly lengths 32..=36 whose index part is either the
@@ -63,6 +68,7 @@ value_harness!(c27_inscription_id_value_b4, 0x100_0000, u32::MAX, 4);
 //# props: C27, C16
 //# kind: complete (every byte string of length 0..=40; longer strings are rejected by the same length test)
 //# fns: inscriptions::inscription_id::InscriptionId::from_value
+//# timeout: 900
 #[cfg_attr(kani, kani::proof)]
 #[cfg_attr(kani, kani::unwind(42))]
 pub fn c27_inscription_id_from_value_exact() {
@@ -130,29 +136,35 @@ macro_rules! from_str_len_harness {
 //# props: C31
 //# kind: bounded(one concrete ASCII string of length 0)
 //# fns: inscriptions::inscription_id::InscriptionId::from_str
+//# timeout: 900
 from_str_len_harness!(c31_inscription_id_from_str_len_0, 0);
 
 //# props: C31
 //# kind: bounded(one concrete ASCII string of length 63)
 //# fns: inscriptions::inscription_id::InscriptionId::from_str
+//# timeout: 900
 from_str_len_harness!(c31_inscription_id_from_str_len_63, 63);
 
 //# props: C31
 //# kind: bounded(one concrete ASCII string of length 64: a bare txid)
 //# fns: inscriptions::inscription_id::InscriptionId::from_str
+//# timeout: 900
 from_str_len_harness!(c31_inscription_id_from_str_len_64, 64);
 
 //# props: C31
 //# kind: bounded(one concrete ASCII string of length 65: txid + separator, no index)
 //# fns: inscriptions::inscription_id::InscriptionId::from_str
+//# timeout: 900
 from_str_len_harness!(c31_inscription_id_from_str_len_65, 65);
 
 //# props: C31
 //# kind: bounded(one concrete ASCII string of length 66: shortest well-formed id)
 //# fns: inscriptions::inscription_id::InscriptionId::from_str
+//# timeout: 900
 from_str_len_harness!(c31_inscription_id_from_str_len_66, 66);
 
 //# props: C31
 //# kind: bounded(one concrete ASCII string of length 67)
 //# fns: inscriptions::inscription_id::InscriptionId::from_str
+//# timeout: 900
 from_str_len_harness!(c31_inscription_id_from_str_len_67, 67);
